@@ -32,8 +32,8 @@ theorem count_emit (name : String) (pos : Nat) (r : Run) (n : String) (p : Nat) 
 theorem one_done_one_verdict (fuel : Nat) (ps : List Policy) (r : Run) (res : PR) (r' : Run)
     (h : execute fuel ps r = some (res, r')) :
     ∃ r1, executeStack fuel 0 ps r = some (res, r1) ∧
-      r'.log = r1.log ++ [⟨if res.successAll then "ex.onSuccess" else "ex.onFailure", 0, r1.attempts, r1.execs⟩,
-                          ⟨"ex.onDone", 0, r1.attempts, r1.execs⟩] := by
+      r'.log = r1.log ++ [⟨if res.successAll then "ex.onSuccess" else "ex.onFailure", 0, r1.attempts, r1.execs, none⟩,
+                          ⟨"ex.onDone", 0, r1.attempts, r1.execs, none⟩] := by
   unfold execute at h
   split at h
   · simp at h
@@ -49,9 +49,9 @@ theorem retry_onFailure_events (pos : Nat) (m : Int) (rl : Bool) (a : List Cond)
     let exc : Bool := decide (m ≠ -1 ∧ ((getFailed r pos + 1 : Nat) : Int) > m)
     let ab := isAbortable a res1.outcome
     (retryOnFailure pos m rl a res1 r).2.log =
-      r.log ++ [⟨"rp.onFailure", pos, r.attempts, r.execs⟩]
-        ++ (if ab then [⟨"rp.onAbort", pos, r.attempts, r.execs⟩] else [])
-        ++ (if exc && !ab then [⟨"rp.onRetriesExceeded", pos, r.attempts, r.execs⟩] else []) := by
+      r.log ++ [⟨"rp.onFailure", pos, r.attempts, r.execs, none⟩]
+        ++ (if ab then [⟨"rp.onAbort", pos, r.attempts, r.execs, none⟩] else [])
+        ++ (if exc && !ab then [⟨"rp.onRetriesExceeded", pos, r.attempts, r.execs, none⟩] else []) := by
   unfold retryOnFailure
   simp only
   have hg : getFailed (r.emit "rp.onFailure" pos) pos = getFailed r pos := rfl
@@ -147,6 +147,6 @@ theorem limiter_event_iff (fuel pos id : Nat) (inner : Layer) (r : Run) (c : Lim
 theorem breaker_events_connected (c : Breaker.Cfg) (t0 : Int) (ops : List C03.Op) :
     C03.EvInv (ops.foldl (C03.apply c) (Breaker.B.new c, t0)).1 := C03.events_connected_path c t0 ops
 
-example : count "ex.onDone" 0 [⟨"ex.onSuccess", 0, 1, 1⟩, ⟨"ex.onDone", 0, 1, 1⟩] = 1 := by decide
+example : count "ex.onDone" 0 [⟨"ex.onSuccess", 0, 1, 1, none⟩, ⟨"ex.onDone", 0, 1, 1, none⟩] = 1 := by decide
 
 end Failsafe.Props.C16
